@@ -78,8 +78,7 @@ class Ctx:
 
 
 def model_bytes(ex, vars_):
-    assert ex.solver.check() == z3.sat
-    m = ex.solver.model()
+    m = ex.witness_model()
     return bytes(m.eval(x, model_completion=True).as_long() for x in vars_)
 
 
